@@ -1,6 +1,8 @@
 package eng
 
 import (
+	"go/token"
+	"go/types"
 	"sync"
 
 	"golang.org/x/tools/go/ssa"
@@ -215,7 +217,14 @@ func SameX(a, b ssa.Value) bool {
 // ImpliedByResult returns the branch conditions common to every path of the
 // boolean helper called by call that returns `want` (what is known in the
 // caller on the corresponding edge of a test of the call's result).
-func ImpliedByResult(call *ssa.Call, want bool) []Cond {
+func ImpliedByResult(call *ssa.Call, want bool) []Cond { return ImpliedByResultAt(call, 0, want) }
+
+// ImpliedByResultAt: the same for boolean result #idx of a helper returning
+// several values (`v, ok := helper(...)`).
+func ImpliedByResultAt(call *ssa.Call, idx int, want bool) []Cond {
+	if idx < 0 {
+		idx = 0 // the call's single result
+	}
 	cal := Callee(&call.Call)
 	if cal == nil || cal.Blocks == nil || !IsHelper(call.Parent(), cal) {
 		return nil
@@ -236,13 +245,13 @@ func ImpliedByResult(call *ssa.Call, want bool) []Cond {
 			continue
 		}
 		rv := RetVals(ret)
-		if len(rv) == 0 {
+		if len(rv) <= idx {
 			return nil
 		}
 		if !pa.Feasible() {
 			continue
 		}
-		res := pa.Resolve(rv[0])
+		res := pa.Resolve(rv[idx])
 		k, isC := res.(*ssa.Const)
 		if isC && k.Value != nil && (k.Value.String() == "true") != want {
 			continue // this path returns the other answer
@@ -289,11 +298,27 @@ func ImpliedByResult(call *ssa.Call, want bool) []Cond {
 // site of the helper containing it and at the creation site of an enclosing
 // function literal (facts are about immutable SSA values), plus what a
 // boolean helper's answer implies where that answer was tested.
-func FactsX(in ssa.Instruction) []Cond {
-	out := factsX(in)
+func FactsX(in ssa.Instruction) []Cond { return ExpandConds(factsX(in)) }
+
+// EdgeFactsX: FactsX at the end of block from, plus the condition of the
+// edge from -> to when from ends in a branch.
+func EdgeFactsX(from, to *ssa.BasicBlock) []Cond {
+	last := from.Instrs[len(from.Instrs)-1]
+	out := factsX(last)
+	if ifi, ok := last.(*ssa.If); ok && len(from.Succs) == 2 && from.Succs[0] != from.Succs[1] {
+		cd := CondOf(ifi.Cond, from.Succs[0] == to)
+		cd.If = ifi
+		out = append(out, cd)
+	}
+	return ExpandConds(out)
+}
+
+// ExpandConds adds what the tested answers of boolean helpers and the nil
+// errors of helpers imply.
+func ExpandConds(out []Cond) []Cond {
 	for i := 0; i < len(out) && i < 64; i++ {
-		if call, _, truth, isCall := out[i].BoolCall(); isCall {
-			out = append(out, ImpliedByResult(call, truth)...)
+		if call, idx, truth, isCall := out[i].BoolCall(); isCall {
+			out = append(out, ImpliedByResultAt(call, idx, truth)...)
 		}
 		if v, isNil, isE := out[i].ErrCheck(); isE && isNil {
 			if call, _ := TupleCall(v); call != nil {
@@ -473,6 +498,18 @@ func InstrsDeep(fn *ssa.Function, f func(*ssa.Function, ssa.Instruction)) {
 // enumerates the helper's paths that respect the assumption and reports which
 // results remain possible.  Unknown results count as both.
 func BoolHelperUnder(call *ssa.Call, assumedFalse func(ssa.Value) bool) (canTrue, canFalse bool) {
+	return BoolHelperAssume(call, func(v ssa.Value) (bool, bool) {
+		if assumedFalse(v) {
+			return false, true
+		}
+		return false, false
+	})
+}
+
+// BoolHelperAssume is BoolHelperUnder for assumptions of either truth:
+// assume reports, for a boolean value inside the helper, the truth it is
+// assumed to have (known=false: nothing assumed).
+func BoolHelperAssume(call *ssa.Call, assume func(ssa.Value) (truth, known bool)) (canTrue, canFalse bool) {
 	cal := Callee(&call.Call)
 	if cal == nil || cal.Blocks == nil {
 		return true, true
@@ -481,42 +518,72 @@ func BoolHelperUnder(call *ssa.Call, assumedFalse func(ssa.Value) bool) (canTrue
 	if !ok || len(paths) == 0 {
 		return true, true
 	}
+	idx := 0
+	if refs := call.Referrers(); refs != nil && cal.Signature.Results().Len() > 1 {
+		// the boolean among several results
+		for i := 0; i < cal.Signature.Results().Len(); i++ {
+			if b, isB := cal.Signature.Results().At(i).Type().Underlying().(*types.Basic); isB && b.Kind() == types.Bool {
+				idx = i
+			}
+		}
+	}
 	for _, pa := range paths {
 		ret, isR := pa.Last().(*ssa.Return)
 		if !isR {
 			continue
 		}
 		feasible := true
-		for _, cd := range pa.Conds() {
-			// the condition as branched on: value ifi.Cond with the truth taken
-			v := Origin(cd.If.Cond)
-			truth := false
-			for i, b := range pa.Blocks {
-				if b == cd.If.Block() && i+1 < len(pa.Blocks) {
-					truth = pa.Blocks[i+1] == b.Succs[0]
-				}
+		for i := 0; i+1 < len(pa.Blocks); i++ {
+			b := pa.Blocks[i]
+			ifi, isIf := b.Instrs[len(b.Instrs)-1].(*ssa.If)
+			if !isIf || b.Succs[0] == b.Succs[1] {
+				continue
 			}
-			if assumedFalse(v) && truth {
+			taken := pa.Blocks[i+1] == b.Succs[0]
+			v := Origin(ifi.Cond)
+			for {
+				u, isU := v.(*ssa.UnOp)
+				if !isU || u.Op != token.NOT {
+					break
+				}
+				v, taken = Origin(u.X), !taken
+			}
+			if t, known := assume(v); known && t != taken {
 				feasible = false
 			}
 		}
 		if !feasible {
 			continue
 		}
-		rv := pa.Resolve(RetVals(ret)[0])
-		switch {
-		case assumedFalse(rv):
-			canFalse = true
-		default:
-			if k, isC := rv.(*ssa.Const); isC && k.Value != nil {
-				if k.Value.String() == "true" {
-					canTrue = true
-				} else {
-					canFalse = true
-				}
-			} else {
-				canTrue, canFalse = true, true
+		rvs := RetVals(ret)
+		if idx >= len(rvs) {
+			return true, true
+		}
+		rv := pa.Resolve(rvs[idx])
+		neg := false
+		for {
+			u, isU := rv.(*ssa.UnOp)
+			if !isU || u.Op != token.NOT {
+				break
 			}
+			rv, neg = Origin(u.X), !neg
+		}
+		if t, known := assume(rv); known {
+			if t != neg {
+				canTrue = true
+			} else {
+				canFalse = true
+			}
+			continue
+		}
+		if k, isC := rv.(*ssa.Const); isC && k.Value != nil {
+			if (k.Value.String() == "true") != neg {
+				canTrue = true
+			} else {
+				canFalse = true
+			}
+		} else {
+			canTrue, canFalse = true, true
 		}
 	}
 	return
@@ -803,4 +870,49 @@ func StructTable(v ssa.Value) (rows []map[int]ssa.Value, ok bool) {
 		rows = append(rows, row)
 	}
 	return rows, true
+}
+
+// ResolveWithin resolves v across the parameter boundary of helpers using only
+// the call sites that lie inside the region InstrsDeep(root) visits: the
+// values v can stand for when root runs.  A value that is no parameter (or a
+// parameter of root itself) resolves to itself.
+func ResolveWithin(root *ssa.Function, v ssa.Value) []ssa.Value {
+	region := map[*ssa.Function]bool{}
+	var sites []ssa.CallInstruction
+	InstrsDeep(root, func(f *ssa.Function, in ssa.Instruction) {
+		region[f] = true
+		if ci, ok := in.(ssa.CallInstruction); ok {
+			sites = append(sites, ci)
+		}
+	})
+	var out []ssa.Value
+	var res func(v ssa.Value, depth int)
+	res = func(v ssa.Value, depth int) {
+		v = Origin(v)
+		prm, ok := v.(*ssa.Parameter)
+		if !ok || prm.Parent() == root || depth > 4 {
+			out = append(out, v)
+			return
+		}
+		f := prm.Parent()
+		idx := -1
+		for j, q := range f.Params {
+			if q == prm {
+				idx = j
+			}
+		}
+		n := 0
+		for _, ci := range sites {
+			if Callee(ci.Common()) != f || ci.Common().IsInvoke() || len(ci.Common().Args) != len(f.Params) || idx < 0 {
+				continue
+			}
+			n++
+			res(ci.Common().Args[idx], depth+1)
+		}
+		if n == 0 {
+			out = append(out, v)
+		}
+	}
+	res(v, 0)
+	return out
 }
